@@ -9,6 +9,7 @@ def run(rep, tier, seed):
                 "{top level, inside a block yielded with content}, probes for '.', variables, isset of every name, yield content "
                 "and output position before and after the try; every program is non-trivial; distinct by program")
     gen_and_replay(rep, wd, exe, "Gen_C13.tla", "C13_d2", {"Depth": 2}, {"Kinds": "WrapKinds"})
+    mc_any_failure(rep, wd, "Gen_C13.tla", "C13_d1", {"Depth": 1}, {"Kinds": "WrapKinds"})
     if tier == "thorough":
         gen_and_replay(rep, wd, exe, "Gen_C13.tla", "C13_d3", {"Depth": 3}, {"Kinds": "CoreKinds"}, timeout=6000)
         asis_refuted(rep, wd, "Gen_C13.tla", "C13_asis", {"Depth": 1, "FixTry": "FALSE"}, {"Kinds": "WrapKinds"},
